@@ -326,6 +326,9 @@ fn me() -> usize {
 impl Rt for ShuttleRt {
     fn op(&self, op: Op) {
         let me = me();
+        if trace_on() {
+            eprintln!("[t{}] op {:?}", me, op);
+        }
         with_core(|c| {
             c.ensure_task(me);
             c.pending[me] = op;
@@ -339,6 +342,9 @@ impl Rt for ShuttleRt {
 
     fn block(&self, timeout: Option<Duration>) -> bool {
         let me = me();
+        if trace_on() {
+            eprintln!("[t{}] block {:?} at {:?}", me, timeout, with_core(|c| c.now));
+        }
         if let Some(d) = timeout {
             // the clock task is created when the first timer is
             let spawn_clock = with_core(|c| {
@@ -365,6 +371,10 @@ impl Rt for ShuttleRt {
                     c.clock_task = Some(clock_id);
                     c.handles.insert(clock_id, h);
                 });
+                // spawning is a scheduling point: the caller registered on its wait list before
+                // calling us and may have been "woken" meanwhile. Report a spurious wake-up so
+                // that it re-checks its condition and registers again (every waiter loops).
+                return false;
             }
             let clock = with_core(|c| {
                 c.timer_seq += 1;
@@ -391,14 +401,25 @@ impl Rt for ShuttleRt {
     }
 
     fn unblock(&self, t: TaskId) {
-        let _ = ExecutionState::try_with(|s| {
+        if trace_on() {
+            eprintln!("[t?] unblock t{}", t);
+        }
+        let woke = ExecutionState::try_with(|s| {
             let t = STaskId::from(t);
             if let Some(task) = s.try_get(t) {
-                if !task.finished() {
+                if !task.finished() && task.blocked() {
                     s.get_mut(t).unblock();
+                    return true;
                 }
             }
-        });
+            false
+        })
+        .unwrap_or(false);
+        if woke {
+            // a waiter woken by a peer can no longer be timed out: its timer is cancelled now,
+            // not when it gets to run (it re-arms a timer if it has to wait again)
+            let _ = try_with_core(|c| c.timers.retain(|x| x.2 != t));
+        }
     }
 
     fn spawn(&self, name: String, f: Box<dyn FnOnce() + Send>) -> TaskId {
@@ -890,4 +911,9 @@ pub fn set_deadline(d: Option<std::time::Instant>) {
 
 pub fn deadline_passed() -> bool {
     DEADLINE.with(|c| c.get()).map(|d| std::time::Instant::now() > d).unwrap_or(false)
+}
+
+fn trace_on() -> bool {
+    thread_local! { static ON: bool = std::env::var("NV_TRACE").is_ok(); }
+    ON.with(|o| *o)
 }
